@@ -25,6 +25,10 @@ PANIC = re.compile(r"^(core::panicking::|std::rt::begin_panic|core::option::Opti
 ALLOC = re.compile(r"^(alloc::vec::from_elem|alloc::vec::Vec::<T>::with_capacity|alloc::vec::Vec::<T, A>::resize|alloc::vec::Vec::<T, A>::reserve|alloc::slice::<impl \[T\]>::repeat|alloc::string::String::with_capacity)")
 
 
+def root_fn(fid):
+    return re.sub(r"(::\{closure#\d+\})+$", "", fid)
+
+
 def is_reader(f):
     for i in range(1, f.mir["argc"] + 1):
         if "io::BinReader" in f.local_ty(i):
@@ -67,9 +71,11 @@ def run(db, tier):
     ltab = json.load(open(os.path.join(VERIF, "engine", "tables", "c16_alloc.json")))["entries"]
 
     n_p = n_a = n_l = 0
-    for f in sorted(fs, key=lambda f: (f.file, f.line, f.id)):
+    cnt_p, cnt_a, cnt_l = {}, {}, {}     # per ROOT function: closures are attributed to the containing function
+    for f in sorted(fs, key=lambda f: (root_fn(f.id), f.file, f.line, f.id)):
+        rid = root_fn(f.id)
         # ---- explicit panics
-        cnt = {}
+        cnt = cnt_p.setdefault(rid, {})
         for bi, t in f.calls():
             c = t.get("f", "")
             if not PANIC.match(c) or f.blocks[bi].get("cleanup"):
@@ -78,16 +84,16 @@ def run(db, tier):
             rep.site()
             k = kind_of(t)
             cnt[k] = cnt.get(k, 0) + 1
-            key = "%s|%s|%d" % (f.id, k, cnt[k])
+            key = "%s|%s|%d" % (rid, k, cnt[k])
             loc = "%s:%d" % (f.file, t["ln"])
-            ent = ptab.get(f.id)
+            ent = ptab.get(rid)
             if ent and cnt[k] <= ent.get("allow", {}).get(k, 0):
                 rep.ok("R-PANIC-BIN", key, loc, "%s: audited: %s" % (k, ent["reason"]))
             else:
                 rep.bad("R-PANIC-BIN", key, loc, "%s in a function that handles file bytes, not covered by the audit (%s)" % (
                     k, "audit allows %d" % ent.get("allow", {}).get(k, 0) if ent else "function not audited"))
         # ---- arithmetic
-        cnt = {}
+        cnt = cnt_a.setdefault(rid, {})
         for b in f.blocks:
             t = b["t"]
             if t["k"] != "assert" or b.get("cleanup"):
@@ -105,16 +111,16 @@ def run(db, tier):
             n_a += 1
             rep.site()
             cnt[m] = cnt.get(m, 0) + 1
-            key = "%s|%s|%d" % (f.id, m, cnt[m])
+            key = "%s|%s|%d" % (rid, m, cnt[m])
             loc = "%s:%d" % (f.file, t["ln"])
-            ent = atab.get(f.id)
+            ent = atab.get(rid)
             if ent and cnt[m] <= ent.get("allow", {}).get(m, 0):
                 rep.ok("R-ARITH-BIN", key, loc, "%s: audited: %s" % (m, ent["reason"]))
             else:
                 rep.bad("R-ARITH-BIN", key, loc, "panicking %s in a function that handles file bytes, not covered by the audit (%s)" % (
                     m, "audit allows %d" % ent.get("allow", {}).get(m, 0) if ent else "function not audited"))
         # ---- allocations
-        cnt = {}
+        cnt = cnt_l.setdefault(rid, {})
         for bi, t in f.calls():
             c = t.get("f", "")
             if not ALLOC.match(c):
@@ -129,9 +135,9 @@ def run(db, tier):
                 continue
             n_l += 1
             cnt[name] = cnt.get(name, 0) + 1
-            key = "%s|%s|%d" % (f.id, name, cnt[name])
+            key = "%s|%s|%d" % (rid, name, cnt[name])
             loc = "%s:%d" % (f.file, t["ln"])
-            ent = ltab.get(f.id)
+            ent = ltab.get(rid)
             if ent and cnt[name] <= ent.get("allow", {}).get(name, 0):
                 rep.ok("R-ALLOC-BIN", key, loc, "%s: audited: %s" % (name, ent["reason"]))
             else:
